@@ -759,6 +759,79 @@ func propC07(r *Run, w *World) {
 		}
 	}
 
+	// R10: the architecture that names the syscalls is the one that is listed
+	r.Rule("C07.R10", "the architecture printed in the arch filter is the one that selects the syscall-name table: whenever ToCommandLine renders the arch argument, the value later compared with \"b32\"/\"b64\" to pick auparse.AuditSyscalls[arch] has been set to the architecture printed, whatever the operator (Build resolves names with the named architecture for = and != alike)", 1)
+	{
+		var printed ssa.Value
+		var root ssa.Instruction
+		for _, rt := range renderRoots(x.toCmd, "arch") {
+			for _, pt := range renderParts(rt)[1:] {
+				if pt.Val == nil || strings.HasPrefix(Term(pt.Val), "rule.reverseOperatorsTable[") {
+					continue
+				}
+				printed = pt.Val
+				root, _ = rt.(ssa.Instruction)
+			}
+		}
+		var selector ssa.Value
+		instrsOf(x.toCmd, func(in ssa.Instruction) {
+			b, ok := in.(*ssa.BinOp)
+			if !ok || (b.Op != token.EQL && b.Op != token.NEQ) {
+				return
+			}
+			if k, isK := constString(b.Y); isK && k == "b32" {
+				selector = stripConv(b.X)
+			} else if k, isK := constString(b.X); isK && k == "b32" {
+				selector = stripConv(b.Y)
+			}
+		})
+		switch {
+		case printed == nil || root == nil:
+			r.Fail("arch rendering", x.toCmd.Pos(), "no rendering of the arch argument with a value part found")
+		case selector == nil:
+			r.Fail("syscall table selector", x.toCmd.Pos(), "no comparison with \"b32\" found in ToCommandLine")
+		default:
+			ok, how := false, ""
+			if selector == stripConv(printed) {
+				ok, how = true, "the printed value is the selector"
+			} else if f, _ := loadedField(selector); f != nil {
+				pf, _ := loadedField(printed)
+				how = "selector is field " + fieldName(f) + ", never stored with the printed architecture under the conditions of the rendering"
+				subset := func(st, at *ssa.BasicBlock) bool {
+					have := map[string]bool{}
+					for _, g := range GuardsAt(at) {
+						have[g.String()] = true
+					}
+					for _, g := range GuardsAt(st) {
+						if !have[g.String()] {
+							return false
+						}
+					}
+					return true
+				}
+				instrsOf(x.toCmd, func(in ssa.Instruction) {
+					st, isSt := in.(*ssa.Store)
+					if !isSt {
+						return
+					}
+					fa, isFA := st.Addr.(*ssa.FieldAddr)
+					if !isFA || fieldOfAddr(fa) != f {
+						return
+					}
+					same := stripConv(st.Val) == stripConv(printed) || pf == f
+					sb, rb := st.Block(), root.Block()
+					if same && (sb == rb || sb.Dominates(rb) || (rb.Dominates(sb) && subset(sb, rb))) {
+						ok, how = true, "field "+fieldName(f)+" is set to the printed architecture wherever the argument is rendered"
+					}
+				})
+			} else {
+				how = "selector " + Term(selector) + " is neither the printed value nor a field"
+			}
+			r.Check(ok, "ToCommandLine arch selects the syscall table", root.Pos(), how,
+				"the architecture listed in the arch argument ("+Term(printed)+") is not, on every path that lists it, the value that selects the syscall-name table ("+Term(selector)+"): "+how+" — syscall numbers are then named from another architecture's table and the listing re-encodes to a different mask")
+		}
+	}
+
 	// R4
 	r.Rule("C07.R4", "encoder-accepted domains are total in the decoder: a syscall number without a name in the table is listed by number (the encoder accepts raw numbers), not reported as an error", 1)
 	{
@@ -837,53 +910,7 @@ func propC07(r *Run, w *World) {
 	// R5
 	r.Rule("C07.R5", "string-class field sets agree: fromAuditRuleData, ToCommandLine and addFilter treat the same set of field codes as strings", 3)
 	{
-		// For every known field code C: enumerate one iteration of the decoding loop under the
-		// assumption fields[i] == C (helpers used as branch predicates are looked through) and see
-		// whether it takes a string from the buffer (a store to .strings).
-		fromStr := map[string]bool{}
-		var subjects []ssa.Value
-		instrsOf(x.fromARD, func(in ssa.Instruction) {
-			if u, ok := in.(*ssa.UnOp); ok && u.Op == token.MUL {
-				if ia, isIA := u.X.(*ssa.IndexAddr); isIA && strings.HasSuffix(Term(ia.X), ".fields") {
-					subjects = append(subjects, u)
-				}
-			}
-		})
-		var loop *Loop
-		for _, l := range NaturalLoops(x.fromARD) {
-			for _, sv := range subjects {
-				if l.Body[sv.(ssa.Instruction).Block()] {
-					loop = l
-				}
-			}
-		}
-		if loop == nil || len(subjects) == 0 {
-			r.Undecided("fromAuditRuleData field dispatch", x.fromARD.Pos(), "cannot find the loop that dispatches on fields[i]")
-		} else {
-			var codes []uint64
-			for c := range x.fieldName {
-				codes = append(codes, c)
-			}
-			sort.Slice(codes, func(i, j int) bool { return codes[i] < codes[j] })
-			for _, c := range codes {
-				as := map[ssa.Value]string{}
-				for _, sv := range subjects {
-					as[sv] = fmt.Sprint(c)
-				}
-				ps, complete := Paths(x.fromARD, PathOpts{Start: loop.Header, StopAt: func(b *ssa.BasicBlock) bool { return b == loop.Header }, Assume: as, Within: loop.Body})
-				if !complete {
-					r.Undecided("fromAuditRuleData field "+x.fieldName[c], x.fromARD.Pos(), "path cap exceeded")
-					continue
-				}
-				for _, p := range ps {
-					for _, e := range p.Events {
-						if st, ok := e.Instr.(*ssa.Store); ok && e.Kind == EvStore && strings.HasSuffix(AddrTerm(st.Addr), ".strings") {
-							fromStr[x.fieldName[c]] = true
-						}
-					}
-				}
-			}
-		}
+		fromStr := x.decoderStringFields(r)
 		set := func(m map[string]bool) string {
 			var s []string
 			for k := range m {
@@ -1524,6 +1551,136 @@ func propC06(r *Run, w *World) {
 	// R9 what was asked for reaches Build through flags.Parse
 	flagPatterns(r, w, "C06.R9")
 
+	// R10/R11: what the encoding can depend on, and how the parallel slices grow
+	encScope := w.reachable([]*ssa.Function{x.build}, func(f *ssa.Function) bool { return w.inPkg(f, "rule") })
+	r.Rule("C06.R10", "the wire bytes are a function of the rule that was asked for: no function reachable from Build writes package-level state (a store to or through a package-level variable, a map insert into one, or a mutating method of a package-level sync/atomic value), so one Build cannot change what a later Build encodes", 1)
+	{
+		rootGlobal := func(v ssa.Value) *ssa.Global {
+			for i := 0; i < 8 && v != nil; i++ {
+				switch y := v.(type) {
+				case *ssa.Global:
+					return y
+				case *ssa.FieldAddr:
+					v = y.X
+				case *ssa.IndexAddr:
+					v = y.X
+				case *ssa.UnOp:
+					v = y.X
+				case *ssa.ChangeType:
+					v = y.X
+				case *ssa.Convert:
+					v = y.X
+				default:
+					return nil
+				}
+			}
+			return nil
+		}
+		nW := 0
+		// a memo that only one function ever touches is keyed by that function's own argument
+		// class and cannot leak a value to another class: not reported
+		users := map[*ssa.Global]map[*ssa.Function]bool{}
+		for _, fn := range w.PkgFuncs("rule") {
+			instrsOf(fn, func(in ssa.Instruction) {
+				for _, op := range in.Operands(nil) {
+					if g, ok := (*op).(*ssa.Global); ok {
+						if users[g] == nil {
+							users[g] = map[*ssa.Function]bool{}
+						}
+						if !strings.HasPrefix(fn.Name(), "init") {
+							users[g][fn] = true
+						}
+					}
+				}
+			})
+		}
+		private := func(g *ssa.Global) bool { return len(users[g]) <= 1 }
+		for _, fn := range encScope {
+			instrsOf(fn, func(in ssa.Instruction) {
+				switch y := in.(type) {
+				case *ssa.Store:
+					if g := rootGlobal(y.Addr); g != nil && !private(g) {
+						nW++
+						r.Fail("store to package-level "+g.Name()+" in "+fnName(fn), y.Pos(), "a package-level variable is written while a rule is encoded: the bytes Build returns then depend on which rules were built before")
+					}
+				case *ssa.MapUpdate:
+					if g := rootGlobal(y.Map); g != nil && !private(g) {
+						nW++
+						r.Fail("map insert into package-level "+g.Name()+" in "+fnName(fn), y.Pos(), "a package-level table is modified while a rule is encoded")
+					}
+				case ssa.CallInstruction:
+					c := y.Common()
+					callee := c.StaticCallee()
+					if callee == nil || callee.Pkg == nil || len(c.Args) == 0 {
+						return
+					}
+					pp := callee.Pkg.Pkg.Path()
+					if pp != "sync" && pp != "sync/atomic" {
+						return
+					}
+					g := rootGlobal(c.Args[0])
+					if g == nil || private(g) {
+						return
+					}
+					switch callee.Name() {
+					case "Load", "Range", "RLock", "RUnlock", "Lock", "Unlock", "Do":
+						return
+					}
+					nW++
+					r.Fail(fmt.Sprintf("%s on package-level %s in %s", callee.Name(), g.Name(), fnName(fn)), in.Pos(), "package-level state is modified while a rule is encoded: a value memoised under one key class (or by one Build) is returned to another")
+				}
+			})
+		}
+		r.OK("encoder global-write census", x.build.Pos(), fmt.Sprintf("%d functions reachable from Build, %d writes", len(encScope), nW))
+	}
+	r.Rule("C06.R11", "one triple per filter in the order given: on the encoding side the parallel slices fields/values/fieldFlags/strings of ruleData only grow by appending at the end (p.f = append(p.f, x)); nothing reachable from Build stores an element of them in place or replaces them by anything else, so an earlier filter's value, string or length is never rewritten by a later argument", 4)
+	{
+		par := map[string]bool{"fields": true, "values": true, "fieldFlags": true, "strings": true}
+		isPar := func(v *types.Var) bool {
+			if v == nil || !par[fieldName(v)] {
+				return false
+			}
+			return v.Pkg() != nil && x.build.Pkg != nil && v.Pkg() == x.build.Pkg.Pkg
+		}
+		nApp := 0
+		for _, fn := range encScope {
+			instrsOf(fn, func(in ssa.Instruction) {
+				st, ok := in.(*ssa.Store)
+				if !ok {
+					return
+				}
+				switch a := st.Addr.(type) {
+				case *ssa.IndexAddr:
+					if f, _ := loadedField(a.X); isPar(f) {
+						r.Fail("element store into "+fieldName(f)+" in "+fnName(fn), st.Pos(), AddrTerm(st.Addr)+" = "+Term(st.Val)+": an element of the encoder's parallel slices is rewritten in place; the triple (or string, or its length) of an earlier filter no longer is what that filter asked for")
+					}
+				case *ssa.FieldAddr:
+					f := fieldOfAddr(a)
+					if !isPar(f) {
+						return
+					}
+					okA := false
+					if c, isApp := isAppendCall(st.Val); isApp {
+						base, _, _, okP := appendParts(c)
+						if bf, bb := loadedField(base); okP && bf == f && bb == a.X {
+							okA = true
+						}
+					}
+					if okA {
+						nApp++
+						r.OK("append to "+fieldName(f)+" in "+fnName(fn), st.Pos(), "grows at the end")
+					} else if _, isAlloc := a.X.(*ssa.Alloc); isAlloc && fn == x.build {
+						// zero-value construction of the local ruleData
+						r.OK("initialisation of "+fieldName(f)+" in "+fnName(fn), st.Pos(), "construction")
+					} else {
+						r.Fail("store to "+fieldName(f)+" in "+fnName(fn), st.Pos(), fieldName(f)+" = "+Term(st.Val)+" is not an append onto itself")
+					}
+				}
+			})
+		}
+		r.Check(nApp >= 4, "append sites", x.addFilter.Pos(), fmt.Sprint(nApp), fmt.Sprintf("only %d append sites onto the parallel slices found on the encoding side", nApp))
+	}
+
 	// R7 value widths
 	r.Rule("C06.R7", "value widths: every conversion of a strconv.ParseInt/ParseUint result in the value parsers has bitSize <= the target width with matching signedness (or is a deliberate two's-complement reinterpretation of a signed 32-bit parse)", 6)
 	for _, fn := range []*ssa.Function{x.getUID, x.getGID, x.getExit, x.parseNum, x.getMsgType} {
@@ -1685,6 +1842,60 @@ func (x *rulePkg) scope() []*ssa.Function {
 	}
 	sort.Slice(fs, func(i, j int) bool { return fnName(fs[i]) < fnName(fs[j]) })
 	return fs
+}
+
+// decoderStringFields: the field names for which one iteration of fromAuditRuleData's decoding
+// loop takes a string from the buffer (a store to .strings), decided by enumerating the
+// iteration under the assumption fields[i] == C for every known field code C.
+func (x *rulePkg) decoderStringFields(r *Run) map[string]bool {
+	// For every known field code C: enumerate one iteration of the decoding loop under the
+	// assumption fields[i] == C (helpers used as branch predicates are looked through) and see
+	// whether it takes a string from the buffer (a store to .strings).
+	fromStr := map[string]bool{}
+	var subjects []ssa.Value
+	instrsOf(x.fromARD, func(in ssa.Instruction) {
+		if u, ok := in.(*ssa.UnOp); ok && u.Op == token.MUL {
+			if ia, isIA := u.X.(*ssa.IndexAddr); isIA && strings.HasSuffix(Term(ia.X), ".fields") {
+				subjects = append(subjects, u)
+			}
+		}
+	})
+	var loop *Loop
+	for _, l := range NaturalLoops(x.fromARD) {
+		for _, sv := range subjects {
+			if l.Body[sv.(ssa.Instruction).Block()] {
+				loop = l
+			}
+		}
+	}
+	if loop == nil || len(subjects) == 0 {
+		r.Undecided("fromAuditRuleData field dispatch", x.fromARD.Pos(), "cannot find the loop that dispatches on fields[i]")
+	} else {
+		var codes []uint64
+		for c := range x.fieldName {
+			codes = append(codes, c)
+		}
+		sort.Slice(codes, func(i, j int) bool { return codes[i] < codes[j] })
+		for _, c := range codes {
+			as := map[ssa.Value]string{}
+			for _, sv := range subjects {
+				as[sv] = fmt.Sprint(c)
+			}
+			ps, complete := Paths(x.fromARD, PathOpts{Start: loop.Header, StopAt: func(b *ssa.BasicBlock) bool { return b == loop.Header }, Assume: as, Within: loop.Body})
+			if !complete {
+				r.Undecided("fromAuditRuleData field "+x.fieldName[c], x.fromARD.Pos(), "path cap exceeded")
+				continue
+			}
+			for _, p := range ps {
+				for _, e := range p.Events {
+					if st, ok := e.Instr.(*ssa.Store); ok && e.Kind == EvStore && strings.HasSuffix(AddrTerm(st.Addr), ".strings") {
+						fromStr[x.fieldName[c]] = true
+					}
+				}
+			}
+		}
+	}
+	return fromStr
 }
 
 func propC13(r *Run, w *World) {
@@ -1872,6 +2083,26 @@ func propC13(r *Run, w *World) {
 
 	// R5 termination
 	terminationRule(r, w, "C13.R5", scope, map[string]string{}, map[string]string{})
+	// R7: which fields are strings is the kernel's decision (audit_data_to_entry): for exactly
+	// these codes the value word is a length into the buffer, so "string lengths within the
+	// buffer" is checked for a structurally valid rule only if the decoder treats all of them so
+	r.Rule("C13.R7", "the decoder length-checks every field the kernel lays out as a string: one iteration of fromAuditRuleData under fields[i] == C takes (and bounds-checks, R2) a string for every C in the kernel's string set subj_user..subj_clr (13-17), obj_user..obj_lev_high (19-23), watch/path (105), dir (107), exe (112), filterkey (210)", 1)
+	{
+		got := x.decoderStringFields(r)
+		var missing []string
+		for _, c := range []uint64{13, 14, 15, 16, 17, 19, 20, 21, 22, 23, 105, 107, 112, 210} {
+			name, known := x.fieldName[c]
+			if !known {
+				missing = append(missing, fmt.Sprintf("code %d (not in fieldsTable)", c))
+				continue
+			}
+			if !got[name] {
+				missing = append(missing, fmt.Sprintf("%s (%d)", name, c))
+			}
+		}
+		r.Check(len(missing) == 0, "fromAuditRuleData string set ⊇ kernel string set", x.fromARD.Pos(), fmt.Sprintf("%d string fields", len(got)),
+			"fromAuditRuleData does not treat "+strings.Join(missing, ", ")+" as a length into the string buffer: ToCommandLine then succeeds on a rule whose length word for that field exceeds the buffer (and every later string is cut at the wrong offset)")
+	}
 	r.Rule("C13.R6", "no String/Error method of the repository formats its own receiver under a verb that calls the method again (unbounded recursion is a fatal stack overflow that no caller can recover from); the rule package prints architectures, message types and filetypes through such methods", 5)
 	noRecursiveFormat(r, w)
 }
